@@ -29,7 +29,7 @@ STYLES = {
     "C": ["same", "next", "multi", "rettype-own-line", "static"],
     "C++": ["same", "next", "multi", "bracegroup", "qualified"],
     "C#": ["same", "next", "multi", "async", "generic-ret"],
-    "Java": ["same", "next", "multi", "throws", "throws-multi"],
+    "Java": ["same", "next", "multi", "throws", "throws-multi", "throws-long"],
     "JavaScript": ["same", "next", "multi", "bracegroup", "bracedefault", "async", "arrow", "arrow-async", "arrow-bare"],
     "TypeScript": ["same", "next", "multi", "bracegroup", "rettype", "async", "arrow", "arrow-async"],
     "Python": ["same", "multi", "annot", "bracedefault", "async", "decorated"],
@@ -37,7 +37,7 @@ STYLES = {
 METHOD_STYLES = {
     "C++": ["same", "next", "multi"],
     "C#": ["same", "next", "multi", "async"],
-    "Java": ["same", "next", "multi", "throws"],
+    "Java": ["same", "next", "multi", "throws", "throws-long"],
     "JavaScript": ["method", "method-static", "method-async"],
     "TypeScript": ["method", "method-typed"],
     "Python": ["same", "multi", "annot", "async"],
@@ -116,6 +116,10 @@ def header(lang, name, style, method=False):
         return [f"private static List<int> {name}({p})"], (0, len("private static List<int> ")), "same", "}"
     if style == "throws":
         return [f"{ret} {name}({p}) throws IOException, RuntimeException"], (0, len(ret) + 1), "same", "}"
+    if style == "throws-long":
+        # the throws clause is the one unbounded part of a follow-up pattern: make it long
+        return [f"{ret} {name}({p}) throws java.io.IOException, java.lang.InterruptedException,", "        IllegalStateException, java.util.concurrent.TimeoutException"], \
+               (0, len(ret) + 1), "same", "}"
     if style == "throws-multi":
         return [f"{ret} {name}({p})", "        throws IOException"], (0, len(ret) + 1), "same", "}"
     return [f"{ret} {name}({p})"], (0, len(ret) + 1), "same", "}"
@@ -159,6 +163,7 @@ def statements(lang):
             "lambdacall": ["foo(lambda a: (a), key=lambda b: {b})"],
             "string": ["s = \"} { ) ( # not a comment def g():\""],
             "mstring": ["t = '''line1", "  { def h(): (", "'''"],
+            "mstring-blank": ["u = \"\"\"", "SELECT 1", "", "", "  FROM t", "\"\"\""],
             "docstring": ['"""doc', "more ( {", '"""'],
             "comment": ["# comment ( {"],
             "trailing": ["x = 3  # trailing } comment"],
@@ -237,6 +242,7 @@ def statements(lang):
         t["arrowexpr"] = ["const g = (q) => q + 1;"]
         t["iife"] = ["(function () {", "\tfoo(4);", "})();"]
         t["template"] = ["const t = `line1", "  { function h() { (", "`;"]
+        t["template-blank"] = ["const u = `", "line1", "", "  line3 }", "`;"]
         t["newcall"] = ["const o3 = new Thing(foo(1), 2);"]
         t["nosemi"] = ["x = foo(5)"]
     return t
